@@ -282,8 +282,10 @@ class StateTriggerDecorator(TriggerDecorator, ExpressionDecorator, AutoKwargsDec
                 else:
                     # nothing we watch changed: no evaluation, so the hold timers are unaffected
                     continue
-                self.last_new_vars = new_vars
-                self.last_func_args = func_args
+                if self.true_entered_at is None:
+                    # while a state_hold is pending keep the arguments of the event that started it
+                    self.last_new_vars = new_vars
+                    self.last_func_args = func_args
                 await self._check_new_state(trig_ok)
             except TimeoutError:
                 await self._check_state_hold()
